@@ -692,6 +692,87 @@ fn filter_block_probe(a: &mut Vec<i128>) -> String {
 	res
 }
 
+/// persister_probe <max_pending_updates> <payments>
+/// Two live nodes whose ChainMonitors persist through the real MonitorUpdatingPersister (public API) over an in-memory
+/// key-value store. After the channel is open and after each of <payments> payments (alternating directions) the store
+/// is read back the way a restart would (`read_all_channel_monitors_with_updates`) and compared with the monitor in
+/// memory; finally node 0 force-closes and the check is repeated. Output: `<checks made> <checks in which the recovered
+/// monitor was not at the in-memory monitor's update id, or recovery failed>` (an incremental update deleted too early,
+/// written under a wrong id or not written at all shows up as a recovered monitor that is behind).
+fn persister_probe(a: &mut Vec<i128>) -> String {
+	use lightning::util::persist::MonitorUpdatingPersister;
+	use lightning::util::test_utils::{TestChainMonitor, TestStore};
+	let max_pending = a[0] as u64;
+	let payments = a[1] as usize;
+	let chanmon_cfgs = create_chanmon_cfgs(2);
+	let stores = [TestStore::new(false), TestStore::new(false)];
+	let persisters: Vec<_> = (0..2).map(|i| MonitorUpdatingPersister::new(&stores[i], &chanmon_cfgs[i].logger, max_pending, &chanmon_cfgs[i].keys_manager,
+		&chanmon_cfgs[i].keys_manager, &chanmon_cfgs[i].tx_broadcaster, &chanmon_cfgs[i].fee_estimator)).collect();
+	let mut node_cfgs = create_node_cfgs(2, &chanmon_cfgs);
+	for i in 0..2 {
+		node_cfgs[i].chain_monitor = TestChainMonitor::new(Some(&chanmon_cfgs[i].chain_source), &chanmon_cfgs[i].tx_broadcaster, &chanmon_cfgs[i].logger,
+			&chanmon_cfgs[i].fee_estimator, &persisters[i], &chanmon_cfgs[i].keys_manager);
+	}
+	let legacy_cfg = test_legacy_channel_config();
+	let node_chanmgrs = create_node_chanmgrs(2, &node_cfgs, &[Some(legacy_cfg.clone()), Some(legacy_cfg)]);
+	let nodes = create_network(2, &node_cfgs, &node_chanmgrs);
+	let chan = create_announced_chan_between_nodes(&nodes, 0, 1);
+	let (mut checks, mut stale) = (0u32, 0u32);
+	let mut check = |nodes: &Vec<Node>| {
+		for i in 0..2 {
+			checks += 1;
+			let live = nodes[i].chain_monitor.chain_monitor.get_monitor(chan.2).map(|m| m.get_latest_update_id());
+			let live = match live {
+				Ok(l) => l,
+				Err(_) => { stale += 1; continue; },
+			};
+			match persisters[i].read_all_channel_monitors_with_updates() {
+				Ok(v) if v.len() == 1 && v[0].1.get_latest_update_id() == live => {},
+				_ => stale += 1,
+			}
+		}
+	};
+	check(&nodes);
+	for k in 0..payments {
+		let (s, r) = if k % 2 == 0 { (0, 1) } else { (1, 0) };
+		send_payment(&nodes[s], &vec![&nodes[r]][..], if k == 0 { 8_000_000 } else { 21_000 + k as u64 });
+		check(&nodes);
+	}
+	let node_id_1 = nodes[1].node.get_our_node_id();
+	let message = "closing".to_owned();
+	nodes[0].node.force_close_broadcasting_latest_txn(&chan.2, &node_id_1, message.clone()).unwrap();
+	check_closed_event(&nodes[0], 1, lightning::events::ClosureReason::HolderForceClosed { broadcasted_latest_txn: Some(true), message }, &[node_id_1], 100000);
+	check_closed_broadcast(&nodes[0], 1, true);
+	check_added_monitors(&nodes[0], 1);
+	check(&nodes);
+	let out = format!("{} {}", checks, stale);
+	nodes[1].node.get_and_clear_pending_msg_events();
+	core::mem::forget(nodes);
+	out
+}
+
+/// persister_battery <payments>: persister_probe for maximum_pending_updates 0, 1, 2, 3, 4, 5, 7 and 100.
+/// Output: `<checks that failed or runs that panicked> <checks made>`.
+fn persister_battery(a: &mut Vec<i128>) -> String {
+	let payments = a[0];
+	let (mut bad, mut total) = (0u32, 0u32);
+	for mp in [0i128, 1, 2, 3, 4, 5, 7, 100] {
+		match catch_unwind(AssertUnwindSafe(|| persister_probe(&mut vec![mp, payments]))) {
+			Ok(out) => {
+				let t: Vec<u32> = out.split_whitespace().filter_map(|x| x.parse().ok()).collect();
+				if t.len() == 2 {
+					total += t[0];
+					bad += t[1];
+				} else {
+					bad += 1;
+				}
+			},
+			Err(_) => bad += 1,
+		}
+	}
+	format!("{} {}", bad, total)
+}
+
 fn main() {
 	if std::env::var("ORACLE_DEBUG").is_err() { std::panic::set_hook(Box::new(|_| {})); }
 	let stdin = std::io::stdin();
@@ -707,6 +788,8 @@ fn main() {
 		let mut args: Vec<i128> = it.map(|x| x.parse::<i128>().expect("bad int")).collect();
 		let r = catch_unwind(AssertUnwindSafe(|| match name.as_str() {
 			"forward_probe" => forward_probe(&mut args),
+			"persister_probe" => persister_probe(&mut args),
+			"persister_battery" => persister_battery(&mut args),
 			"closing_probe" => closing_probe(&mut args),
 			"prune_probe" => prune_probe(&mut args),
 			"monitor_reorg_probe" => monitor_reorg_probe(&mut args),
